@@ -7,6 +7,7 @@ From Piko Require Import GossipP.LocalP GossipP.ApplyP GossipP.WatchP GossipP.Me
 From Piko Require Import FD.FD Compose.LiveFD GossipP.RediscoverP.
 From Coq Require Import Permutation.
 From Piko Require Import Gossip.Round GossipP.RoundP.
+From Piko Require Import generated.Constants GossipP.ConstantsP.
 Import ListNotations.
 Open Scope string_scope. Open Scope list_scope. Open Scope N_scope.
 
@@ -149,6 +150,11 @@ Theorem C11_round_never_self_nor_departed :
   In x (values (c_nodes c)) /\ n_id x <> c_local c /\ (n_left x = true -> n_unreach x = true).
 Proof. exact round_targets_sound. Qed.
 
+(* the expiry period and the departure marker of the theorems above are those of the current source (regenerated constants) *)
+Theorem C11_expiry_and_marker_are_the_sources :
+  GoConst.nodeExpiryNs = Types.nodeExpiry /\ GoConst.leftKey = Types.leftKey.
+Proof. exact (conj src_node_expiry (proj1 src_reserved_keys)). Qed.
+
 Print Assumptions C11_no_relearn_left.
 Print Assumptions C11_left_is_final.
 Print Assumptions C11_leave_marks_and_stamps.
@@ -162,3 +168,4 @@ Print Assumptions C11_heard_is_reachable.
 Print Assumptions C11_forgotten_live_node_relearned.
 Print Assumptions C11_round_contacts_unreachable.
 Print Assumptions C11_round_never_self_nor_departed.
+Print Assumptions C11_expiry_and_marker_are_the_sources.
